@@ -113,7 +113,9 @@ theorem b2n_le (b : Bool) : b2n b ≤ 1 := by cases b <;> simp
 structure Inv (s : SSys) : Prop where
   /-- the statement order of `Suspend` and the assignment in `Resume` are those of the source -/
   order : s.da1First = false
-  clears : s.resumeClears = true
+  /-- … and so are the repaired shapes: `WaitClose` drains, `PostEventBlocking` selects on `chQuit`
+  (`Props.C10Shutdown.waitclose_drains`, `blocking_post_selects_quit`) -/
+  clears : s.resumeClears = true ∧ s.waitDrains = true ∧ s.postQuitArm = true
   qpos : 1 ≤ s.qcap
   /-- at most one goroutine is past the test-and-set of `closed`, and `chQuit` is closed by it -/
   flag : sumBy fActive s.callers + s.quitCloses = b2n s.closedFlag
@@ -142,7 +144,7 @@ theorem inv_running (q n : Nat) (c : Bool) (ib : List (Option Nat)) (i : IPc) (s
     (hq : 1 ≤ q) :
     Inv { qcap := q, queueLen := n, consumer := c, inbuf := ib, ppc := .reading, ipc := i, seqs := sq, killSig := k,
           winchSig := w, olds := o } := by
-  refine ⟨rfl, rfl, hq, by simp [sumBy], by simp [sumBy], by simp [sumBy],
+  refine ⟨rfl, ⟨rfl, rfl, rfl⟩, hq, by simp [sumBy], by simp [sumBy], by simp [sumBy],
     by simp [sumBy, pT, pX, pD], by simp, by simp [sumBy, pT, pD], by simp [sumBy, pT, pD], by simp [sumBy],
     by simp [pD], ?_, by simp [sumBy]⟩
   simp [pR, emptyN, sumBy]; omega
@@ -176,7 +178,7 @@ theorem inv_winchSig (s : SSys) (b : Bool) (h : Inv s) : Inv { s with winchSig :
 over natural numbers): concrete states can be checked by evaluation. -/
 instance instDecidableInv (s : SSys) : Decidable (Inv s) :=
   decidable_of_iff
-    (s.da1First = false ∧ s.resumeClears = true ∧ 1 ≤ s.qcap ∧
+    (s.da1First = false ∧ (s.resumeClears = true ∧ s.waitDrains = true ∧ s.postQuitArm = true) ∧ 1 ≤ s.qcap ∧
      sumBy fActive s.callers + s.quitCloses = b2n s.closedFlag ∧
      (1 ≤ sumBy fPastFlag s.callers → b2n s.closedFlag = 1) ∧
      sumBy fBad s.callers = 0 ∧
